@@ -59,10 +59,10 @@ def load_files(paths, run=None):
     return cases
 
 
-def eval_calls(cases, calls, run=None):
-    """calls: list of (file index (0-based), op, args) -> list of oracle answers {alts, needed}"""
+def eval_calls(cases, calls, run=None, model=True):
+    """calls: list of (file index (0-based), op, args) -> list of oracle answers {alts, needed, model}"""
     payload = {'files': [c.F for c in cases],
-               'calls': [{'f': f + 1, 'op': op, 'a': list(a)} for f, op, a in calls]}
+               'calls': [{'f': f + 1, 'op': op, 'a': list(a), 'model': bool(model)} for f, op, a in calls]}
     out = tlc.oracle('Gen_Api', payload)
     if run is not None:
         run.add_tlc({'distinct': 0, 'generated': out['_tlc']['generated'], 'wall_s': out['_tlc']['wall_s']}, 'Gen_Api(calls)')
